@@ -104,6 +104,16 @@ TEXTS = {
                 "of files laid out by an independent v1/v2/v3 encoder, and by spec_C08 on the crate's outcomes.",
         "design_ref": "DESIGN.md §4 C08", "note": NOTE_COMMON + "harness/src/bin.rs defines the documented layouts.", "technique": TECH,
     },
+    "C09": {
+        "text": "Theorems (Properties/C09.v, about the byte-level text functions of the Gallina transcription): split inverts join on pieces "
+                "without the separator; strip_prefix; a `key: value` line splits at the first ': ' and keeps the whole value (names with "
+                "': '); the id of an is_a line is the text before the first blank; parsing the HP:%07d rendering returns the id (every u32). "
+                "PARTIAL: parse(render F) = F at file level is not yet a theorem; it is decided per generated directory by spec_C09 on the "
+                "crate's observations (both loaders, the Builder API and the binary format give the same dump, and that dump is exactly the "
+                "one the facts describe, with the C01-C03 statements on everything derived) and by diffing the Gallina transcription of "
+                "hp_obo.rs / parser.rs (run on the SAME file bytes) against the crate.",
+        "design_ref": "DESIGN.md §4 C09", "note": NOTE_COMMON + "File-system access is outside the model.", "technique": TECH,
+    },
     "C10": {
         "text": "Theorems (Properties/C10.v, about the Gallina transcription of the two-table arena, for EVERY insertion sequence and EVERY id): "
                 "get after any insertions = first inserted term with that id, None outside the id space; a returned term carries the asked id; "
